@@ -30,19 +30,20 @@ func typeOf[T any]() reflect.Type {
 }
 
 var (
-	tTime       = typeOf[time.Time]()
-	tCurrency   = typeOf[types.Currency]()
-	tPolicy     = typeOf[types.SpendPolicy]()
-	tPolicyIf   = tPolicy.Field(0).Type
-	tResolution = typeOf[types.V2FileContractResolutionType]()
-	tError      = typeOf[error]()
-	tWork       = typeOf[consensus.Work]()
-	tStateElem  = typeOf[types.StateElement]()
-	tState      = typeOf[consensus.State]()
-	tAcc        = typeOf[consensus.ElementAccumulator]()
-	tNetworkPtr = typeOf[*consensus.Network]()
-	tRevision   = typeOf[types.FileContractRevision]()
-	tThreshold  = typeOf[types.PolicyTypeThreshold]()
+	tTime        = typeOf[time.Time]()
+	tCurrency    = typeOf[types.Currency]()
+	tPolicy      = typeOf[types.SpendPolicy]()
+	tPolicyIf    = tPolicy.Field(0).Type
+	tResolution  = typeOf[types.V2FileContractResolutionType]()
+	tError       = typeOf[error]()
+	tWork        = typeOf[consensus.Work]()
+	tStateElem   = typeOf[types.StateElement]()
+	tState       = typeOf[consensus.State]()
+	tAcc         = typeOf[consensus.ElementAccumulator]()
+	tNetworkPtr  = typeOf[*consensus.Network]()
+	tRevision    = typeOf[types.FileContractRevision]()
+	tThreshold   = typeOf[types.PolicyTypeThreshold]()
+	tPolicyAfter = typeOf[types.PolicyTypeAfter]()
 )
 
 // PayoutSentinel is what every decoder stores in FileContractRevision.Payout.
